@@ -68,13 +68,22 @@ def _loose_meets(t, live) -> bool:
 
 
 def scenarios(r, p):
+    """create -> a pass that finds the object matching (no mutation) -> drift applied to the stored object
+    (the server's bookkeeping applied: metadata-only edits leave metadata.generation alone) -> the pass that has
+    to correct -> one more pass.  All passes of a scenario use one prepared function in one process."""
     t = rf45.target_of(p)
+    meta_only = r.random() < 0.4
+
+    def exclude(path):
+        if rf45.identity_path(path):
+            return True
+        return meta_only and not (path and path[0] == ("k", "metadata"))
 
     def perturb(cur):
         if cur is None:
             return None
         cur = g.decorate_object(r, t, cur) if r.random() < 0.5 else cur
-        d = g.drift(r, t, cur, exclude=rf45.identity_path)
+        d = g.drift(r, t, cur, exclude=exclude) or g.drift(r, t, cur, exclude=rf45.identity_path)
         return d[0] if d else cur
 
     def perturb_and_drop_owner(cur):
@@ -84,11 +93,13 @@ def scenarios(r, p):
         return cur
 
     c = r.random()
+    if c < 0.7:
+        return None, [None, None, perturb, None]
     if c < 0.8:
         return None, [None, perturb, None]
     if c < 0.9:
-        return None, [None, perturb, perturb]
-    return None, [None, perturb_and_drop_owner, None]
+        return None, [None, None, perturb, perturb]
+    return None, [None, None, perturb_and_drop_owner, None]
 
 
 def check_scenario(ck, drv, p, stored, steps):
@@ -97,13 +108,21 @@ def check_scenario(ck, drv, p, stored, steps):
         return
     obs, _ = got
     t = rf45.target_of(p)
+    prev = None
     for o in obs:
         if o["before"] is not None and g.wf(t) and not g.meets("excl", t, o["before"]):
             ck.nontriv(("e", rf45.cn(p["T"]), p["policy"], rf45.cn(o["before"])))
             ck.count(f"drifted-pass:{p['policy']}")
+            if prev is not None and not prev["reqs"] and prev["o"]["c"] == "ok":
+                ck.count("drifted-pass-after-a-matching-pass")
+                if rf45.cn(rf45._outside_metadata(prev["before"])) == rf45.cn(rf45._outside_metadata(o["before"])):
+                    ck.count("drifted-pass-after-a-matching-pass:metadata-only")
         bad = rf45.oracle_c05_pass(p, o)
         if bad:
-            ck.violate({"kind": "e2e", "p": p, "befores": [o["before"]]}, bad)
+            # the pass before belongs to the input: what the process saw earlier may matter
+            befores = ([prev["before"]] if prev is not None and prev["before"] is not None else []) + [o["before"]]
+            ck.violate({"kind": "e2e", "p": p, "befores": befores}, bad)
+        prev = o
 
 
 def replay_case(case, verbose=True) -> str | None:
@@ -114,14 +133,14 @@ def replay_case(case, verbose=True) -> str | None:
             print("replay(unit):", json.dumps({k: case[k] for k in ("t", "live", "la")}), "->", iv, "::", bad)
         return bad
     p, befores = case["p"], case["befores"]
-    b = befores[-1]
-    obs = rf45.Prepared(p).run_passes(None, [lambda cur: copy.deepcopy(b)])
+    steps = [(lambda cur, b=b: copy.deepcopy(b)) for b in befores]
+    obs = rf45.Prepared(p).run_passes(None, steps)
     if obs and "prepare" in obs[0]:
         return None
-    bad = rf45.oracle_c05_pass(p, obs[0])
+    bad = rf45.oracle_c05_pass(p, obs[-1])
     if verbose:
         print("replay(e2e):", json.dumps(rf45.program_spec(p)[0])[:400], "->",
-              (obs[0]["o"], [q["m"] for q in obs[0]["reqs"]]), "::", bad)
+              [(o["o"], [q["m"] for q in o["reqs"]]) for o in obs], "::", bad)
     return bad
 
 
